@@ -169,12 +169,24 @@ static void mutex_release(Thread* t, SyncObj* o)
     t->held_excl--;
 }
 
+// std::recursive_mutex / recursive_timed_mutex: glibc keeps the type in the object itself
+// (static initialiser or pthread_mutex_init, neither of which the runtime replaces); the
+// nesting depth lives in SyncObj::state, the thread counts the mutex as held once
+static bool mutex_is_recursive(const pthread_mutex_t* m)
+{
+    return (m->__data.__kind & 3) == PTHREAD_MUTEX_RECURSIVE_NP;
+}
 static int sim_mutex_lock(pthread_mutex_t* m, int ek, int64_t deadline)
 {
     Thread* t = tl_self;
     RtScope rs(t);
     sched_point(ek, m);
     SyncObj* o = so_get(m, SK_MUTEX);
+    if (o->owner == t->id && mutex_is_recursive(m)) {
+        o->state++;
+        event_result(0);
+        return 0;
+    }
     for (;;) {
         if (o->owner < 0) {
             mutex_acquire(t, o);
@@ -201,6 +213,11 @@ static int sim_mutex_trylock(pthread_mutex_t* m)
     RtScope rs(t);
     sched_point(E_MTRY, m);
     SyncObj* o = so_get(m, SK_MUTEX);
+    if (o->owner == t->id && mutex_is_recursive(m)) {
+        o->state++;
+        event_result(0);
+        return 0;
+    }
     if (o->owner >= 0) {
         event_result(EBUSY);
         return EBUSY;
@@ -222,6 +239,10 @@ static int sim_mutex_unlock(pthread_mutex_t* m)
     if (o->owner != t->id)
         failf("bad_unlock", "thread %d unlocks mutex #%d which is %s", t->id, obj_ordinal(m),
               o->owner < 0 ? "not locked (released twice?)" : "owned by another thread");
+    if (o->state > 0 && mutex_is_recursive(m)) {
+        o->state--;
+        return 0;
+    }
     mutex_release(t, o);
     return 0;
 }
